@@ -22,7 +22,7 @@ import (
 	"verif/internal/wx"
 )
 
-var suite = vrt.NewSuite("C18", "(tree of simple values incl. nil members, nested empty containers and time.Time, conversion, mutation script): Generify->Simplify, GenAlter->Alter, Dup, Decompose (explicit options that keep nulls; TimeFormat 'time' where times occur) must give a typed-canon-equal tree; writers must give identical text for a gen tree and its simple equivalent; gen.Parser(text) must equal Generify(oj.Parser(text)); after a generated mutation script (set/delete member, overwrite element, write through a retained sub-slice) applied to the copy or to the original, the other side's canon is unchanged for the copying operations. Non-trivial = tree with >=2 container levels and a mutation that hits a nested container; distinct = distinct (tree, script)")
+var suite = vrt.NewSuite("C18", "(tree of simple values incl. nil members, nested empty containers and time.Time, conversion, mutation script): Generify->Simplify, GenAlter->Alter, Dup, Decompose (explicit options that keep nulls; TimeFormat 'time' where times occur) must give a typed-canon-equal tree; writers must give identical text for a gen tree and its simple equivalent; gen.Parser(text) must equal Generify(oj.Parser(text)), also through readers with 1-7 byte reads and for the text with its floats respelled (integer mantissa with exponent, upper case exponent, trailing zeros); after a generated mutation script (set/delete member, overwrite element, write through a retained sub-slice) applied to the copy or to the original, the other side's canon is unchanged for the copying operations. Non-trivial = tree with >=2 container levels and a mutation that hits a nested container; distinct = distinct (tree, script)")
 
 type Mut struct {
 	Target int `json:"target"` // which container (in walk order, modulo count)
